@@ -3,6 +3,7 @@
 package zzvf
 
 import (
+	"os"
 	"runtime"
 	"sync/atomic"
 	"time"
@@ -30,9 +31,16 @@ func quiesceNative() int {
 
 // Jitter pauses for a random short time (native replays under the race detector insert it, through
 // overlay copies of the repository files, before every mutex Lock to widen interleaving windows).
+var jitterLong = os.Getenv("VF_JITTER") == "long"
+
 func Jitter() {
 	n := jitterState.Add(0x9e3779b97f4a7c15)
 	n ^= n >> 29
+	if jitterLong && (n>>8)%12 == 0 {
+		// second replay phase: occasional long pauses, so that two pauses can overlap
+		time.Sleep(time.Duration((n>>16)%23) * 100 * time.Microsecond)
+		return
+	}
 	switch n % 4 {
 	case 0:
 	case 1:
